@@ -544,13 +544,17 @@ def sym_sorted(ip, items, key, rev=False):
         return r
 
     res = [sel(items, p) for p in ps]
-    rkeys = [sel(keys, p) for p in ps]
+    # ordering and stability, stated per pair of source positions (keys may be tuples of
+    # different lengths, so they are never merged into one value)
     for i in range(n - 1):
-        le = ip.order("<=", rkeys[i], rkeys[i + 1])
-        ip.assume(to_bool_term(le) if not isinstance(le, bool) else z3.BoolVal(le))
-        eqk = ip.eq(rkeys[i], rkeys[i + 1])
-        st = b_implies(eqk, mk(ps[i] < ps[i + 1], "bool"))
-        ip.assume(to_bool_term(st) if not isinstance(st, bool) else z3.BoolVal(st))
+        for a in range(n):
+            for b in range(n):
+                if a == b:
+                    continue
+                le = ip.order("<=", keys[a], keys[b])
+                eqk = ip.eq(keys[a], keys[b])
+                ok = b_and(le, b_implies(eqk, a < b))
+                ip.assume(z3.Implies(z3.And(ps[i] == a, ps[i + 1] == b), to_bool_term(ok) if not isinstance(ok, bool) else z3.BoolVal(ok)))
     return res
 
 
@@ -720,6 +724,19 @@ def method(ip, obj, name):
         if name == "appendleft":
             return fn(lambda ip_, a, k: obj.appendleft(a[0]))
     if isinstance(obj, SeqV):
+        if name == "index":
+            def index(ip_, a, k, obj=obj):
+                x = a[0]
+                j = z3.Int(fresh_name("qi"))
+                found = z3.Exists([j], z3.And(j >= 0, j < obj.length, to_bool_term(ip_.eq(obj.get(j), x))))
+                if not ip_.branch(mk(found, "bool")):
+                    raise PyRaise(ExcV("ValueError", ("not in list",)))
+                r = z3.Int(fresh_name("index"))
+                j2 = z3.Int(fresh_name("qj"))
+                ip_.assume(z3.And(r >= 0, r < obj.length, to_bool_term(ip_.eq(obj.get(r), x))))
+                ip_.assume(z3.ForAll([j2], z3.Implies(z3.And(j2 >= 0, j2 < r), z3.Not(to_bool_term(ip_.eq(obj.get(j2), x))))))
+                return Sym(r, "int")
+            return fn(index)
         if name == "append":
             raise EngineError("append on a symbolic sequence must go through a local name (handled in e_Call)")
     if isinstance(obj, Fraction) or isinstance(obj, int) and not isinstance(obj, bool):
@@ -798,10 +815,66 @@ def external(*names):
     return deco
 
 
+class PyObjV:
+    """a real Python object produced by a whitelisted pure library on concrete arguments"""
+
+    def __init__(self, obj):
+        self.obj = obj
+
+    def get_attr(self, ip, name):
+        a = getattr(self.obj, name)
+        if callable(a):
+            return I.PyFn(name, lambda ip_, args, kw, a=a: _native_call(a, args, kw))
+        return _wrap_native(a)
+
+    def truthy(self):
+        return bool(self.obj)
+
+
+def _wrap_native(r):
+    if r is None or isinstance(r, (bool, int, str)):
+        return r
+    if isinstance(r, float):
+        return ops.conc_float(r)
+    if isinstance(r, tuple):
+        return tuple(_wrap_native(x) for x in r)
+    if isinstance(r, list):
+        return [_wrap_native(x) for x in r]
+    return PyObjV(r)
+
+
+def _native_call(f, args, kw):
+    def unwrap(v):
+        if isinstance(v, PyObjV):
+            return v.obj
+        if v is None or isinstance(v, (bool, int, str)):
+            return v
+        if isinstance(v, Fraction):
+            return float(v)
+        if isinstance(v, tuple):
+            return tuple(unwrap(x) for x in v)
+        raise EngineError(f"native library call with non-concrete argument {v!r}")
+
+    try:
+        return _wrap_native(f(*[unwrap(a) for a in args], **{k: unwrap(v) for k, v in kw.items()}))
+    except EngineError:
+        raise
+    except Exception as e:  # noqa: BLE001
+        raise PyRaise(ExcV(type(e).__name__, ()))
+
+
+_NATIVE_PURE = ("re.",)
+
+
 def call_external(ip, q, args, kw):
     f = _EXT.get(q)
     if f is not None:
         return f(ip, args, kw)
+    if q.startswith(_NATIVE_PURE):
+        import importlib
+
+        mod, _, fn = q.rpartition(".")
+        return _native_call(getattr(importlib.import_module(mod), fn), args, kw)
     if q.startswith("absl.logging.") or q.startswith("logging."):
         return None
     if q.startswith("typing."):
@@ -1067,7 +1140,7 @@ def quantify(ip, is_all, gen, env, r):
 def _quant_fn(is_all):
     def f(ip, a, k):
         lo, hi, fn = a
-        if isinstance(lo, int) and isinstance(hi, int):
+        if isinstance(lo, int) and isinstance(hi, int) and hi - lo <= 64:
             vals = [ip.truth(ip.call_v(fn, [i], {})) for i in range(lo, hi)]
             return b_and(*vals) if is_all else b_or(*vals)
         v = z3.Int(fresh_name("q"))
